@@ -773,7 +773,10 @@ def random_string(rng, name, pool):
 
 
 _FOLD_TO_ASCII = ["\u212a", "\u017f", "\u0130", "\u0131", "\u2126",
-                  "\u212b", "\uff41", "\uff21", "\u0660", "\uff10"]
+                  "\u212b", "\uff41", "\uff21", "\u0660", "\uff10",
+                  # the ASCII neighbours of the ranges A-Z, a-z and 0-9: what
+                  # a class written 'A-z' or '/-:' lets in
+                  "[", "\\", "]", "^", "`", "@", "{", "|", "/", ":"]
 
 
 def fold_specials(name):
